@@ -2556,7 +2556,13 @@ static int cfg_opt_print_pff_indent(cfg_opt_t *opt, FILE *fp,
 
 	if (is_set(CFGF_COMMENTS, opt->flags) && opt->comment) {
 		cfg_indent(fp, indent);
-		fprintf(fp, "/* %s */\n", opt->comment);
+		/* a one-line annotation that contains the end-of-comment
+		 * marker (it came from a '#' or '//' comment) goes back
+		 * out as a '#' comment */
+		if (strstr(opt->comment, "*/") && !strchr(opt->comment, '\n'))
+			fprintf(fp, "# %s\n", opt->comment);
+		else
+			fprintf(fp, "/* %s */\n", opt->comment);
 	}
 
 	if (opt->type == CFGT_SEC) {
